@@ -748,7 +748,7 @@ pub fn s_order(thorough: bool) -> Space {
                 }
                 tuples.push(Opts { mode: Some(fm as u8), ecl: None, version: None, mask: None, order: 0 });
                 for t in tuples {
-                    for order in 0..72u8 {
+                    for order in 0..75u8 {
                         cases.push(Case::new(p.clone(), Opts { order, ..t }));
                     }
                 }
@@ -757,7 +757,7 @@ pub fn s_order(thorough: bool) -> Space {
     }
     Space {
         name: "S_order".into(),
-        describe: "all 24 orders of the setter calls (mode, ecl, version, mask), each also preceded by calls of the same setters with other values (last value wins; both other modes in turn), x 7 payloads x forced modes at least as wide as the content x levels {L, Q, H} x versions {auto, smallest for the content's own class, smallest for the forced mode, one more} x mask {auto, 5}".into(),
+        describe: "all 24 orders of the setter calls (mode, ecl, version, mask), each also preceded by calls of the same setters with other values (last value wins; both other modes in turn), and the input handed over in three other shapes (a Vec with 9000 bytes of spare capacity, a Vec grown by pushes, a String), x 7 payloads x forced modes at least as wide as the content x levels {L, Q, H} x versions {auto, smallest for the content's own class, smallest for the forced mode, one more} x mask {auto, 5}".into(),
         cases,
         exhaustive: true,
     }
